@@ -136,6 +136,9 @@ func genUUs(t *rapid.T, o genOpts, create bool, cap int32) []UU {
 			if o.jumbo && rapid.IntRange(0, 7).Draw(t, "jumbo") == 0 {
 				u.Jumbo = rapid.SampledFrom([]int{100, 300, 1000, 2000, 3000, 4000}).Draw(t, "jumboN")
 			}
+			if o.jumbo && rapid.IntRange(0, 7).Draw(t, "quotaOnly") == 0 {
+				u.QOnly = rapid.SampledFrom([]int{60, 500, 2000}).Draw(t, "quotaOnlyN")
+			}
 		}
 		out = append(out, u)
 	}
